@@ -86,6 +86,18 @@ class ToGFA2:
         "Length of segment {} unknown".format(self.to_segment.name))
     return gfapy.LastPos(length)
 
+  def _mark_lastpos(self, pos, field):
+    """
+    The position as gfapy.LastPos, if it is equal to the length of the
+    segment in the specified field; otherwise the position itself.
+    The position is returned unchanged, if the segment length is not known.
+    """
+    line = getattr(self, field)
+    if isinstance(pos, int) and isinstance(line, gfapy.Line) and \
+         pos == line.length:
+      return gfapy.LastPos(pos)
+    return pos
+
   def _check_overlap(self):
     if isinstance(self.overlap, gfapy.Placeholder):
       raise gfapy.ValueError(
